@@ -1,5 +1,43 @@
 import BigtreeModel.Proto
-/-! Driver handler for property C14: one case (token list) in, one canonical line out. -/
+import BigtreeModel.Helper
+/-! Driver handler for property C14 (prune_tree / get_subtree).
+
+`fn=prune tsep=<x> sep=<x> exact=<0|1> md=<n> paths=<x,x,…|-> T <tree>`
+`fn=subtree tsep=<x> start=<id> q=<x> md=<n> T <tree>`
+→ `ok <tree>` | `NotFoundError` | `ValueError` | `rej` -/
 namespace Drv.C14
-def handle (_toks : List String) : String := "unimplemented"
+open Proto Helper
+
+def splitAtTok (toks : List String) (t : String) : List String × List String :=
+  (toks.takeWhile (· ≠ t), (toks.dropWhile (· ≠ t)).drop 1)
+
+def parseStrs (s : String) : Option (List Str) :=
+  if s == "-" then some [] else (s.splitOn ",").mapM unhex
+
+def showRes : Except Err Tree → String
+  | .ok t => "ok " ++ showTree t
+  | .error .notFound => "NotFoundError"
+  | .error .valueError => "ValueError"
+  | .error _ => "rej"
+
+def handle (toks : List String) : String :=
+  let r : Option String := do
+    let fn ← kv toks "fn"
+    let tsep ← unhex (← kv toks "tsep")
+    let md ← (← kv toks "md").toNat?
+    let (_, rest) := splitAtTok toks "T"
+    let (t, _) ← parseTree rest
+    match fn with
+    | "prune" =>
+      let sep ← unhex (← kv toks "sep")
+      let exact ← match (← kv toks "exact") with | "0" => some false | "1" => some true | _ => none
+      let paths ← parseStrs (← kv toks "paths")
+      pure (showRes (prune tsep t paths exact sep md))
+    | "subtree" =>
+      let start ← (← kv toks "start").toNat?
+      let q ← unhex (← kv toks "q")
+      let v ← (walk [] [] t).find? fun v => v.sub.id == start
+      pure (showRes (getSubtree tsep v.names.dropLast v.sub q md))
+    | _ => none
+  r.getD "bad-op"
 end Drv.C14
